@@ -46,18 +46,7 @@ def validators : List (String × String) := [
 
 -- re-read 2026-09-26 after a79d153 (restore countdown loaded with max(duration, 1)); round 7: seven methods left for the translated tie
 def methods : List (String × String) := [
-  ("FileSystem.__init__", "def __init__(self, **kwargs):\n    super().__init__(**kwargs)\n    if not self.folders:\n        self.create_folder('root')"),
-  ("FileSystem.access_file", "def access_file(self, folder_name, file_name):\n    folder = self.get_folder(folder_name=folder_name)\n    if folder:\n        file = folder.get_file(file_name=file_name)\n        if file:\n            file.num_access += 1\n            return True\n        else:\n            pass\n    return False"),
-  ("FileSystem.apply_timestep", "def apply_timestep(self, timestep):\n    super().apply_timestep(timestep=timestep)\n    for folder_id in self.folders:\n        self.folders[folder_id].apply_timestep(timestep=timestep)"),
-  ("FileSystem.describe_state", "def describe_state(self):\n    state = super().describe_state()\n    state['folders'] = {folder.name: folder.describe_state() for folder in self.folders.values()}\n    state['deleted_folders'] = {folder.name: folder.describe_state() for folder in self.deleted_folders.values()}\n    state['num_file_creations'] = self.num_file_creations\n    state['num_file_deletions'] = self.num_file_deletions\n    return state"),
-  ("FileSystem.move_file", "def move_file(self, src_folder_name, src_file_name, dst_folder_name):\n    file = self.get_file(folder_name=src_folder_name, file_name=src_file_name)\n    if file:\n        src_folder = self.get_folder(folder_name=src_folder_name)\n        dst_folder = self.get_folder(folder_name=dst_folder_name)\n        if not dst_folder:\n            dst_folder = self.create_folder(dst_folder_name)\n        if dst_folder.get_file(file.name) is not None:\n            return\n        src_folder.files.pop(file.uuid)\n        file.num_access += 1\n        self.num_file_deletions += 1\n        file.folder_id = dst_folder.uuid\n        file.folder_name = dst_folder.name\n        dst_folder.add_file(file)\n        self.num_file_creations += 1"),
-  ("FileSystem.scan", "def scan(self, instant_scan=False):\n    for folder_id in self.folders:\n        self.folders[folder_id].scan(instant_scan=instant_scan)"),
-  ("Folder._scan_timestep", "def _scan_timestep(self):\n    if self.scan_countdown >= 0:\n        self.scan_countdown -= 1\n        if self.scan_countdown == 0:\n            for file_id in self.files:\n                file = self.get_file_by_id(file_uuid=file_id)\n                file.scan()\n            self.health_status = FileSystemItemHealthStatus(max([f.health_status.value for f in self.files.values()] or [0]))\n            self.visible_health_status = self.health_status\n            self._scanned_this_step = True"),
-  ("Folder.scan", "def scan(self, instant_scan=False):\n    if self.deleted:\n        return False\n    if instant_scan:\n        for file_id in self.files:\n            file = self.get_file_by_id(file_uuid=file_id)\n            file.scan()\n            if file.visible_health_status == FileSystemItemHealthStatus.CORRUPT:\n                self.visible_health_status = FileSystemItemHealthStatus.CORRUPT\n        self._scanned_this_step = True\n        return True\n    if self.scan_countdown <= 0:\n        self.scan_countdown = max(self.scan_duration, 1)\n    else:\n        pass\n    return True"),
-  ("Folder.repair", "def repair(self):\n    if self.deleted:\n        return False\n    for file_id in self.files:\n        file = self.get_file_by_id(file_uuid=file_id)\n        file.repair()\n    if self.health_status == FileSystemItemHealthStatus.CORRUPT:\n        self.health_status = FileSystemItemHealthStatus.GOOD\n    self.health_status = FileSystemItemHealthStatus.GOOD\n    return True"),
-  ("Folder.corrupt", "def corrupt(self):\n    if self.deleted:\n        return False\n    for file_id in self.files:\n        file = self.get_file_by_id(file_uuid=file_id)\n        file.corrupt()\n    self.health_status = FileSystemItemHealthStatus.CORRUPT\n    return True"),
-  ("Folder.apply_timestep", "def apply_timestep(self, timestep):\n    super().apply_timestep(timestep=timestep)\n    self._scan_timestep()\n    self._reveal_to_red_timestep()\n    self._restoring_timestep()\n    for file_id in self.files:\n        self.files[file_id].apply_timestep(timestep=timestep)"),
-  ("Folder.describe_state", "def describe_state(self):\n    state = super().describe_state()\n    state['files'] = {file.name: file.describe_state() for uuid, file in self.files.items()}\n    state['deleted_files'] = {file.name: file.describe_state() for uuid, file in self.deleted_files.items()}\n    state['scanned_this_step'] = self._scanned_this_step\n    return state")
+  ("FileSystem.move_file", "def move_file(self, src_folder_name, src_file_name, dst_folder_name):\n    file = self.get_file(folder_name=src_folder_name, file_name=src_file_name)\n    if file:\n        src_folder = self.get_folder(folder_name=src_folder_name)\n        dst_folder = self.get_folder(folder_name=dst_folder_name)\n        if not dst_folder:\n            dst_folder = self.create_folder(dst_folder_name)\n        if dst_folder.get_file(file.name) is not None:\n            return\n        src_folder.files.pop(file.uuid)\n        file.num_access += 1\n        self.num_file_deletions += 1\n        file.folder_id = dst_folder.uuid\n        file.folder_name = dst_folder.name\n        dst_folder.add_file(file)\n        self.num_file_creations += 1")
 ]
 
 end Primaite.FileSystem.Snapshot
